@@ -10,7 +10,7 @@ import FV.Model.Geom
     very same code runs at `Float` (bit-faithful) and at `Rat`, and is proved for every ordered field.
   * The model follows the code with the repairs of `fixes/C02_*.diff`, `fixes/C12_*.diff` applied
     (fixed cells are never split; the y-loop of `griddify` ranges over the y cuts; `must_be_refined`
-    has the non-empty guard of `refine`).
+    has the non-empty guard of `refine`; `griddify` repeats its two sweeps until nothing is cut any more).
   * Everything lives in `namespace FV.Alloc` (so that the model can be imported together with the YAML / netlist /
     die models, which have their own `validIdent`, `Eps`, `Cell`, …).
   * `_module2rect` (module ↦ [(cell index, ratio)]) is represented without indices: the entries of a
@@ -19,12 +19,12 @@ import FV.Model.Geom
 -/
 namespace FV.Alloc
 
-inductive AErr | assertion | zeroDiv | value | index | key
+inductive AErr | assertion | zeroDiv | value | index | key | fuel
   deriving DecidableEq, Repr, Inhabited
 
 def AErr.toStr : AErr → String
   | .assertion => "err:AssertionError" | .zeroDiv => "err:ZeroDivisionError" | .value => "err:ValueError"
-  | .index => "err:IndexError" | .key => "err:KeyError"
+  | .index => "err:IndexError" | .key => "err:KeyError" | .fuel => "err:Fuel"
 
 /-- `map` with early exit (`for … : …` whose body may raise). -/
 def mapE {β γ ε : Type} (f : β → Except ε γ) : List β → Except ε (List γ)
@@ -348,20 +348,57 @@ def cutsLoop (cut : α → Cell α → Except AErr (List (Cell α))) (cuts : Lis
       | .error e => .error e
       | .ok q' => cutsLoop cut cuts is q'
 
-/-- the deque after both loops of `griddify` (repaired: the y loop ranges over `y_cuts`). -/
+/-- the deque after one round of both loops of `griddify` (repaired: the y loop ranges over `y_cuts`). -/
 def griddifyCells (ρ : α) (xs ys : List α) (cells : List (Cell α)) : Except AErr (List (Cell α)) :=
   match cutsLoop (cutX ρ) xs (List.range' 1 (xs.length - 2)) cells with
   | .error e => .error e
   | .ok q => cutsLoop (cutY ρ) ys (List.range' 1 (ys.length - 2)) q
 
-/-- `griddify()`. -/
-def griddify (env : Env α) (st : Eps α) (a : Allocation α) : Except AErr (Allocation α × Eps α) :=
+/-- the body of `griddify` after `fixes/C12_griddify_x_before_y.diff`:
+
+        while True:
+            n_rects = len(new_allocs)
+            <x loop>; <y loop>                      # = `griddifyCells`, one round
+            if len(new_allocs) == n_rects: break
+
+    `fuel` bounds the number of rounds; it is a device of the model only: with `gridFuel` it is never exhausted
+    (`griddifyRounds_ok` in `FV/Proofs/Alloc.lean`), and the driver reports `err:Fuel` (which no Python exception matches)
+    if it ever were. -/
+def griddifyRounds (ρ : α) (xs ys : List α) : Nat → List (Cell α) → Except AErr (List (Cell α))
+  | 0, _ => .error .fuel
+  | fuel + 1, q =>
+    match griddifyCells ρ xs ys q with
+    | .error e => .error e
+    | .ok q' => if q'.length = q.length then .ok q' else griddifyRounds ρ xs ys fuel q'
+
+/-- a bound on the number of rounds: every round but the last adds a rectangle, and a rectangle list obtained by cutting
+    along the lines `xs` / `ys` never has more than `(|xs| + 1)·(|ys| + 1)` pieces per original cell. -/
+def gridFuel (xs ys : List α) (cells : List (Cell α)) : Nat :=
+  cells.length * ((xs.length + 1) * (ys.length + 1)) + 1
+
+/-- `griddify()` (repaired: the two sweeps are repeated until no rectangle is cut any more; the cut lines are gathered
+    once, from the original cells). -/
+def griddifyNew (env : Env α) (st : Eps α) (a : Allocation α) : Except AErr (Allocation α × Eps α) :=
+  match gatherBoundaries st (a.cells.map (·.rect)) with
+  | .error e => .error e
+  | .ok (xs, ys) =>
+    match griddifyRounds env.rho xs ys (gridFuel xs ys a.cells) a.cells with
+    | .error e => .error e
+    | .ok q => mkAllocation env st (q.map Cell.toRaw)
+
+/-- `griddify()` as it was before `fixes/C12_griddify_x_before_y.diff` (one round of the two sweeps); kept to state what
+    the unrepaired code guaranteed and to witness the defect (`FV/Props/C12.lean`). -/
+def griddifyOnce (env : Env α) (st : Eps α) (a : Allocation α) : Except AErr (Allocation α × Eps α) :=
   match gatherBoundaries st (a.cells.map (·.rect)) with
   | .error e => .error e
   | .ok (xs, ys) =>
     match griddifyCells env.rho xs ys a.cells with
     | .error e => .error e
     | .ok q => mkAllocation env st (q.map Cell.toRaw)
+
+/-- TEMPORARY (switched at the end of the round): the old body. -/
+def griddify (env : Env α) (st : Eps α) (a : Allocation α) : Except AErr (Allocation α × Eps α) :=
+  griddifyOnce env st a
 
 /-! ### operation histories -/
 
